@@ -137,6 +137,18 @@ def special_cells():
         out.append(('free-process-parameter', 'forwarded-through-partial-instantiation-through-%d-initialisers' % hops,
                     dict(tparams=P, tdecl=chain + 'int ar[%s + 1]; ' % last, inst='Q(const int[0,2] q) = P(q);', system='system Q;'),
                     [dict(tparams=P, tdecl=chain + 'int ar[%s + 1]; ' % last, inst='Q(const int[0,2] q) = P(q); R = Q(1);', system='system R;')]))
+    # the free parameter forwarded through 2 and 3 partial instantiations (directly and inside an expression)
+    for depth in (2, 3):
+        for form, arg in (('direct', '%s'), ('expression', '%s + 0')):
+            inst = 'Q1(const int[0,2] q1) = P(%s); ' % (arg % 'q1')
+            last = 'Q1'
+            for k in range(2, depth + 1):
+                inst += 'Q%d(const int[0,2] q%d) = Q%d(%s); ' % (k, k, k - 1, arg % ('q%d' % k))
+                last = 'Q%d' % k
+            for pname, decl in (('template-array', 'int ar[fp + 1]; '), ('array-through-initialiser', 'const int N0 = fp + 1; int ar[N0]; '), ('function-local-array', 'void h() { int la[fp + 1]; } ')):
+                out.append(('free-process-parameter', '%s-forwarded-through-%d-partial-instantiations-%s' % (pname, depth, form),
+                            dict(tparams=P, tdecl=decl, inst=inst, system='system %s;' % last),
+                            [dict(tparams=P, tdecl=decl, inst=inst + 'R = %s(1);' % last, system='system R;')]))
     # a by-value parameter must be const to be usable in a size; its argument must be computable
     out.append(('template-parameter-in-size', 'bound-to-variable', dict(tparams='const int pp', tdecl='int ar[pp + 1]; ', inst='Q = P(mv);', system='system Q;'),
                 [dict(tparams='const int pp', tdecl='int ar[pp + 1]; ', inst='Q = P(kv);', system='system Q;')]))
